@@ -40,6 +40,18 @@ def bounded(check, tier):
                     s.contract_case(F.splice, dict(self=f, new_str=new, start=start, end=end), key=(lens, ni, start, end))
             s.contract_case(F.append, dict(self=f, string=new), key=(lens, ni, "append"))
         s.contract_case(F.divides, dict(self=f), key=(lens, "divides"))
+    # runs that compare equal (twins) and the same run object repeated: positions must not be confused
+    from bounded.common import mk_twins
+    for n in (2, 3):
+        for l in (1, 2):
+            for same in (False, True):
+                f = mk_twins(n, l, same)
+                L = len(f.s)
+                for ni, new in enumerate(news[::3] + ["", "X"]):
+                    for start in range(0, L + 2):
+                        for end in [None] + list(range(start, L + 2)):
+                            s.contract_case(F.splice, dict(self=f, new_str=new, start=start, end=end), key=("twins", n, l, same, ni, start, end))
+                    s.contract_case(F.append, dict(self=f, string=new), key=("twins", n, l, same, ni, "append"))
     s.done()
 
 
